@@ -1017,7 +1017,8 @@ pub fn slug(s: &str) -> String {
 // --- generator -----------------------------------------------------------------------------------
 
 pub fn gen_params(rng: &mut Rng) -> Params {
-    let apr = rng.pick(&["0.1", "0.1", "0.075", "1", "0.33", "0", "0.000000000000000001"]).to_string();
+    // (annual rates above 100 % are valid: the rate is an unrestricted decimal)
+    let apr = rng.pick(&["0.1", "0.1", "0.075", "1", "0.33", "0", "0.000000000000000001", "1.5", "1.000000000000000001", "12"]).to_string();
     let unbonding = *rng.pick(&[60u64, 60, 1, 3600, 0]);
     let n = rng.range(2, 3) as usize;
     let pool = ["0", "0.1", "0.33", "0.05", "1", "0.5"];
